@@ -495,13 +495,9 @@ func (x *caller) dispatch(op *Op, depth int, c *canon, res *OpResult) {
 		b, err := o.MarshalJSON()
 		c.Str(string(b))
 		c.B(err == nil)
-		if op.Scribble {
-			for i := range b {
-				b[i] = '#'
-			}
-		} else {
-			x.keepBytes(res, b)
-		}
+		// never overwritten by the caller: a library may legitimately return a
+		// cached read-only slice from MarshalJSON (see gen.go)
+		x.keepBytes(res, b)
 	case "AppendJSON":
 		capn := op.Cap
 		if capn < len(op.Prefix) {
